@@ -15,6 +15,7 @@
   Not covered by a theorem: the report's derived strings (layout), and the set-once fields
   (run trigger type, data format, system id: first header) which are tied by correspondence.
 -/
+import FastPasta.Proofs.ReaderStatsSrcTie
 import FastPasta.Model.Cli
 import FastPasta.Proofs.Collector
 import FastPasta.Proofs.ScanCount
@@ -643,6 +644,29 @@ theorem trigger_counters_src (v : SrcTrig.TriggerStats) (c : Coll) (cap t : Nat)
   simp only [triggerBits, List.mem_cons, List.not_mem_nil, or_false, forall_eq_or_imp, forall_eq] at hk
   obtain ⟨h0, h1, h2, h3, h4, h5, h6, h7, h8, h9, h10, h11, h12, h13, h14, h27, h28, h29, h30, h31⟩ := hk
   exact ⟨h0, h1, h2, h3, h4, h5, h6, h7, h8, h9, h10, h11, h12, h13, h14, h27, h28, h29, h30, h31⟩
+
+
+/-! ### tie by translation: the reader's statistics bookkeeping (`alice_protocol_reader/src/stats.rs` → `Spec/ReaderStatsSrcGen.lean`,
+    translated on this run, the channel taken as a value) -/
+/-- nothing is lost between the reader's accumulators and the messages it sends: links and FEE IDs are announced at their first
+    occurrence exactly as `ScanSt.seeRdh` / `seeMsgs` do; for the payload sum and the two header counters, (values already sent) +
+    (accumulator) grows by exactly what is added — for ANY accumulator value below 2^32, i.e. also across the `u32` boundary, where
+    the payload sum used to wrap (F14); `flush_stats` sends the three accumulators -/
+theorem reader_counters_src (st : SrcReaderStats.Stats) (s : ScanSt) (r : Rdh) (n : Nat)
+    (hl : st.f_unique_links_observed = s.links) (hf : st.f_unique_feeids_observed = s.fees)
+    (hacc : st.f_payload_size_seen < 2^32) (hn : n < 2^32) (hs : st.f_rdhs_seen < 2^32 - 1) (hfi : st.f_rdhs_filtered < 2^32 - 1) :
+    (st.try_add_link r.linkId).2.f_unique_links_observed = (if s.links.contains r.linkId then s.links else s.links ++ [r.linkId]) ∧
+    (st.try_add_fee_id r.feeId).2.f_unique_feeids_observed = (if s.fees.contains r.feeId then s.fees else s.fees ++ [r.feeId]) ∧
+    (SrcTie.sent "PayloadSize" (st.add_payload_size n).2.f_out + (st.add_payload_size n).2.f_payload_size_seen =
+      SrcTie.sent "PayloadSize" st.f_out + st.f_payload_size_seen + n ∧ (st.add_payload_size n).2.f_payload_size_seen < 2^32) ∧
+    (SrcTie.sent "RDHSeen" (st.rdh_seen).2.f_out + (st.rdh_seen).2.f_rdhs_seen = SrcTie.sent "RDHSeen" st.f_out + st.f_rdhs_seen + 1 ∧
+      (st.rdh_seen).2.f_rdhs_seen < 2^32 - 1) ∧
+    (SrcTie.sent "RDHFiltered" (st.rdh_filtered).2.f_out + (st.rdh_filtered).2.f_rdhs_filtered =
+      SrcTie.sent "RDHFiltered" st.f_out + st.f_rdhs_filtered + 1 ∧ (st.rdh_filtered).2.f_rdhs_filtered < 2^32 - 1) ∧
+    (st.flush_stats).2.f_out = st.f_out ++ [Rs.Stat.mk "RDHSeen" st.f_rdhs_seen, Rs.Stat.mk "RDHFiltered" st.f_rdhs_filtered,
+      Rs.Stat.mk "PayloadSize" st.f_payload_size_seen] :=
+  ⟨by rw [(SrcTie.try_add_link_eq st r.linkId).1, hl], by rw [(SrcTie.try_add_fee_id_eq st r.feeId).1, hf],
+   SrcTie.add_payload_size_sum st n hacc hn, SrcTie.rdh_seen_sum st hs, SrcTie.rdh_filtered_sum st hfi, SrcTie.flush_stats_eq st⟩
 
 end C14
 end FastPasta
